@@ -131,9 +131,26 @@ static void run_plumbing(const Case &c) {
         if (!(ab.offset <= ab.used && ab.used <= ab.size)) { F(c, "aux-invariant", "offset <= used <= size broken"); return; }
         if (c.api == 15 || c.api == 16)   // no rewind involved: octets outside [offset, used) must be untouched
             for (size_t i = 0; i < c.aux_size; i++) if ((i < c.aux_off || i >= c.aux_used) && auxmem.p[i] != 0x77) { F(c, "aux-outside-region-touched", vp::fmt("octet %zu outside [%zu,%zu) written", i, c.aux_off, c.aux_used)); return; }
+        else   // the counted / drain calls rewind the region to the front of the memory first: nothing at or behind the old fill mark is theirs
+            for (size_t i = c.aux_used; i < c.aux_size; i++) if (auxmem.p[i] != 0x77) { F(c, "aux-behind-fill-mark-touched", vp::fmt("octet %zu at or behind the fill mark %zu written", i, c.aux_used)); return; }
     }
     bool hard = src.script.sticky || snk.script.sticky;
     size_t region = aux ? c.aux_used - c.aux_off : 0;
+    if ((c.api == 15 || c.api == 16 || c.api == 17) && !hard && r >= 0) {
+        // the caller keeps using its auxiliary buffer: a following whole-window call through the same descriptor must stay inside the region the
+        // caller designated as well (the counted call may have rewound it to the front of the memory: nothing at or behind the old fill mark then)
+        size_t moved1 = snk.got.size(), pos1 = src.pos;
+        ssize_t r2 = 0;
+        if (VP_BUDGET(budget_for(c) + 16 * c.len)) { r2 = sts_some_aux(&src.src, &snk.snk, &ab); vp::budget().armed = false; }
+        else { F(c, "no-progress", "second call does not complete"); return; }
+        if (!ep::is_prefix(snk.got, st)) { F(c, "second-call:sink-not-a-prefix", "sink received " + vp::hex(snk.got) + " stream " + vp::hex(st)); return; }
+        for (size_t i = 0; i < c.aux_size; i++) if (((i < c.aux_off && c.api != 17) || i >= c.aux_used) && auxmem.p[i] != 0x77) { F(c, "second-call:aux-outside-region-touched", vp::fmt("octet %zu outside [%zu,%zu) written by a following sts_some_aux call on the same auxiliary buffer", i, c.aux_off, c.aux_used)); return; }
+        size_t cap2 = region;
+        if (!(src.script.sticky || snk.script.sticky) && snk.got.size() - moved1 > cap2) { F(c, "second-call:atmost-moved-more", vp::fmt("second call moved %zu octets, limit %zu", snk.got.size() - moved1, cap2)); return; }
+        (void)r2;
+        // the first call is judged below on what it moved
+        snk.got.resize(moved1); src.pos = pos1;
+    }
     switch (c.api) {
     case 10: {
         size_t want = c.len ? 1 : 0;
